@@ -18,7 +18,7 @@ META = {
             "numeric type / list<->tuple; callable; pre-processor; datum kind; operator; operand; part kind; key / index / "
             "value condition; label; datum / multiplicity modifier; part added / dropped; cast; rule added / dropped / "
             "reordered); a case is one ordered pair (x, y); non-trivial = x == y held and behaviour was compared on all "
-            "probe documents; plus all triples of each 60-object pool for transitivity",
+            "probe documents; plus all triples of each 60-object pool for transitivity; plus, for every modifier-free path, every modifier variant derived from an already-compared live object",
     "assumptions": ["one-atom mutants are NOT required to be unequal; only an equal pair that behaves differently is a violation",
                     "comparisons with foreign objects (5, None, another valida kind) are executed but only required not to "
                     "claim equality with a non-valida object and not to raise"],
@@ -317,8 +317,58 @@ def pool(kind, tier):
 KINDS = ("cond", "part", "path", "rule", "schema")
 
 
+DERIVE = ["length", "dtype", "map_keys", "map_values", "first", "last", "single", "all"]
+
+
+def check_derived(res, pt):
+    """H flavour: modifiers derive a new path from a live object.  After the original has been compared (==) with
+    itself and with others, each derived path must equal a freshly built copy of the same definition, must not
+    equal the original unless it behaves like it, and the original must still equal its own rebuilt copy."""
+    res.count("evaluations")
+    res.states.add(hash(("derive", repr(pt))))
+    case = {"kind": "derive", "x": pt}
+    x = T.build_path(pt)
+    _ = (x == x, x == T.build_path(pt), x != T.build_path(P(pt[1] + (("prim", "zz"),))))
+    conc = all(p[0] == "prim" for p in pt[1])
+    bx = behaviour("path", x)
+    for m in DERIVE:
+        if conc and m in ("first", "last", "single", "all"):
+            continue
+        dt = P(pt[1], m, None) if m in ("length", "dtype", "map_keys", "map_values") else P(pt[1], None, m)
+        res.count("transitions", 4)
+        try:
+            d = getattr(x, m)()
+            f = T.build_path(dt)
+            e1, e2, e3 = (d == f), (f == d), (d == x)
+        except BaseException as e:
+            res.violation("derive-raises:%s" % type(e).__name__, "deriving .%s() from a compared path raised %r" % (m, e), case,
+                          observed=repr(e))
+            return
+        if not (e1 and e2):
+            res.violation("copy-unequal:path:derived-%s" % ("datum" if m in DERIVE[:4] else "multi"),
+                          "%s.%s() derived from an already-compared object != the same path built afresh" % (T.show(pt), m),
+                          case, observed=(e1, e2), expected=(True, True))
+            return
+        if e3 and behaviour("path", d) != bx:
+            res.violation("equal-but-different:path:derived-%s" % ("datum" if m in DERIVE[:4] else "multi"),
+                          "%s == its own .%s() variant, but they behave differently" % (T.show(pt), m), case)
+            return
+        # chain a second modifier from the derived object
+        if m == "length" and not conc:
+            d2, f2 = d.first(), T.build_path(P(pt[1], "length", "first"))
+            if not (d2 == f2 and f2 == d2) or (d2 == d and behaviour("path", d2) != behaviour("path", d)):
+                res.violation("copy-unequal:path:derived-chain", "%s.length().first() != the same path built afresh" % T.show(pt),
+                              case)
+                return
+    if not (x == T.build_path(pt)) or behaviour("path", x) != bx:
+        res.violation("original-changed:path", "deriving modifier variants changed the original path", case)
+        return
+    res.count("validated")
+    res.count("nontrivial")
+
+
 def units(tier):
-    u = []
+    u = [["D", lo, hi] for lo, hi in gen.chunks(len([p for p in pool("path", tier) if p[2] is None and p[3] is None]), 12)]
     for k in KINDS:
         n = len(pool(k, tier))
         u += [["P", k, lo, hi] for lo, hi in gen.chunks(n, 6)]
@@ -328,7 +378,12 @@ def units(tier):
 
 def run_unit(unit, tier):
     res = Result()
-    if unit[0] == "P":
+    if unit[0] == "D":
+        ps = [p for p in pool("path", tier) if p[2] is None and p[3] is None]
+        for i in range(unit[1], unit[2]):
+            check_derived(res, ps[i])
+        res.sample({"kind": "derive", "x": ps[unit[1]]})
+    elif unit[0] == "P":
         _, kind, lo, hi = unit
         ts = pool(kind, tier)
         for i in range(lo, hi):
@@ -344,7 +399,9 @@ def run_unit(unit, tier):
 
 def replay(case):
     res = Result()
-    if case.get("triple"):
+    if case.get("kind") == "derive":
+        check_derived(res, case["x"])
+    elif case.get("triple"):
         check_triple(res, case["kind"], case["triple"])
     else:
         check_pair(res, case["kind"], case["x"], case["y"], case["how"])
